@@ -374,13 +374,17 @@ fn is_useful_wildcard(
                     }
                     witness_report = wr;
                 }
-                (_, wr) => {
+                (WitnessReport::Witnesses(rest), wr) => {
+                    // The witnesses found under *cₖ* can only be reported together with
+                    // the ones found so far if they agree on the remaining columns:
+                    // the aggregated leading patterns all share the one remaining witness.
                     let (pat, wr) =
                         WitnessReport::split_into_leading_constructor(handler, wr, c_k, span)?;
-                    if !pat_stack.contains(&pat) {
+                    if matches!(&wr, WitnessReport::Witnesses(new_rest) if new_rest == rest)
+                        && !pat_stack.contains(&pat)
+                    {
                         pat_stack.push(pat);
                     }
-                    witness_report = WitnessReport::join_witness_reports(witness_report, wr);
                 }
             }
         }
